@@ -1,2 +1,138 @@
+"""Python legs of C10: the LibRDEngine wrapper as a state machine over a reference stand-in library."""
+from .. import pysym
+
+HARNESS = r'''
+from strengths import *
+from strengths.librdengine import LibRDEngine
+from harness.c12lib import mk_system
+from strengths.rdscript import RDScript
+import ctypes
+
+
+class FakeLib:
+    """reference stand-in for the shared library: one simulation PER LIBRARY OBJECT, finished after `life` iterations"""
+
+    class _Fn:
+        restype = None
+        def __call__(self, *a):
+            return 0.0
+
+    def __init__(self, life):
+        self.life, self.done, self.live = life, 0, False
+        self.engineexport_get_progress = FakeLib._Fn()
+        self.engineexport_get_time = FakeLib._Fn()
+    def engineexport_initialize_grid(self, *a):
+        self.done, self.live = 0, True
+        return 0
+    engineexport_initialize_graph = engineexport_initialize_grid
+    def _step(self, n):
+        for _ in range(n):
+            if self.done < self.life:
+                self.done += 1
+        return 1 if self.done < self.life else 0
+    def engineexport_iterate(self):
+        return self._step(1)
+    def engineexport_iterate_n(self, n):
+        return self._step(n)
+    def engineexport_run(self, ms):
+        return self._step(2)
+    def engineexport_sample(self):
+        return 0
+    def engineexport_finalize(self):
+        self.live = False
+        return 0
+
+
+_SCRIPT = None
+
+
+def script():
+    global _SCRIPT
+    if _SCRIPT is None:
+        _SCRIPT = RDScript(mk_system(0, 0, 0), [0, 1.0])
+    return _SCRIPT
+
+
+OPS = ["setup", "iterate", "iterate_n", "run", "sample", "finalize"]
+
+
+def completion_refers_to_current_setup(life, o0, o1, o2, o3, o4):
+    """after any sequence of wrapper calls starting with setup, is_complete() is True iff the CURRENT set-up has finished"""
+    lib = FakeLib(life)
+    e = LibRDEngine(lib, option="euler")
+    e.setup(script())
+    for o in (o0, o1, o2, o3, o4):
+        op = OPS[o]
+        if op == "setup":
+            e.setup(script())
+        elif op == "iterate":
+            e.iterate()
+        elif op == "iterate_n":
+            e.iterate_n(2)
+        elif op == "run":
+            e.run(1)
+        elif op == "sample":
+            e.sample()
+        elif op == "finalize":
+            e.finalize()
+            e.setup(script())
+        if e.is_complete() != (lib.done >= lib.life and lib.life > 0 and lib.done > 0):
+            return False
+    return True
+'''
+
+
 def run(rec):
-    pass
+    rec.assume("LibRDEngine is driven as a state machine against a reference stand-in for the CDLL (finishes after `life` iterations); ALL sequences of 5 wrapper calls over {setup, iterate, iterate_n, run, sample, finalize+setup} are enumerated exhaustively")
+    rec.encoded("LibRDEngine.setup/iterate/iterate_n/run/sample/is_complete/finalize")
+    text = HARNESS + '''
+
+def h_is_complete(life: int, o0: int, o1: int, o2: int, o3: int, o4: int) -> bool:
+    """
+    pre: 1 <= life <= 3 and 0 <= o0 <= 5 and 0 <= o1 <= 5 and 0 <= o2 <= 5 and 0 <= o3 <= 5 and 0 <= o4 <= 5
+    post: _
+    """
+    return completion_refers_to_current_setup(life, o0, o1, o2, o3, o4)
+'''
+    mod = pysym.write_module("hgen_C10", text)
+    pysym.run_auto(rec, mod, [{"fn": "h_is_complete", "what": "the completion status reported by an engine object always refers to its current set-up (every sequence of 5 wrapper calls, stand-in library finishing after 1..3 iterations)",
+                               "sig": "c10-is-complete-stale", "structure": "LibRDEngine", "viol": "is_complete() reports the status of a previous set-up"}])
+    two_objects(rec)
+
+
+def two_objects(rec):
+    """Engine objects are independent: demonstrated on the real build in a CHILD process (two LibRDEngine objects over the same
+    shared library; the two systems have equal state sizes so that the defect cannot overflow a buffer of the check itself)."""
+    import os
+    import subprocess
+    import sys
+    from ..common import scratch, SRC, VERIF
+    code = r'''
+import sys
+sys.path.insert(0, %r); sys.path.insert(0, %r)
+from vt import catalogue
+from vt.enginelegs import make_script
+from vt.glue import real_engine
+s1 = catalogue.build("AB_rev", ("grid", 2, 1, 1, 0))
+s2 = catalogue.build("AB_rev", ("graph", "pair"))
+sc1 = make_script(s1, "euler", 0.125, policy="on_iteration", t_max=0.5)
+sc2 = make_script(s2, "euler", 0.25, policy="on_iteration", t_max=1.0)
+e1 = real_engine("euler"); e1.setup(sc1); e1.iterate()
+ref = [float(v) for v in e1.get_output().data.value]
+e2 = real_engine("euler"); e2.setup(sc2); e2.iterate()
+got = [float(v) for v in e1.get_output().data.value]
+e2.finalize()
+print("SAME" if got == ref else "DIFFERENT", ref[:4], got[:4])
+''' % (SRC, VERIF)
+    path = os.path.join(scratch(), "two_objects.py")
+    open(path, "w").write(code)
+    try:
+        r = subprocess.run([sys.executable, path], capture_output=True, text=True, timeout=120, env=dict(os.environ, VERIF_SHARED_SCRATCH=scratch()))
+        out = (r.stdout.strip().splitlines() or ["crashed with exit code %d" % r.returncode])[-1]
+    except subprocess.TimeoutExpired:
+        out = "timeout"
+    ok = out.startswith("SAME")
+    rec.oblig("operating a second engine object does not change what the first one returns (real build, two LibRDEngine objects)", "holds" if ok else "violated", out[:200], 0, "two engine objects")
+    if not ok:
+        rec.violation("c10-engine-objects-share-one-simulation", "engine objects are not independent: after a second engine object is set up, the first one's get_output() returns the second simulation's data "
+                      "(the native library keeps ONE process-wide simulation): " + out[:200], {"child_output": out})
